@@ -19,7 +19,8 @@ RULE = ("source profiles over an item/parse/result/run + analysis/set schema wit
 EXHAUSTIVE = {"quick": False, "thorough": False}
 EXPLANATION = ("Theorems: one item per sentence line with ids from 1, mark and length; cleanup keeps exactly the "
                "(non-empty core | all) relations; refresh = C09's write_database theorem; _tsql_distinct never "
-               "invents rows and is refuted as an identity (F15). The copy/filter pipeline is modelled on top of "
+               "invents rows, is the identity exactly on selections without equal neighbours, and is refuted as an "
+               "identity in general (F15). The copy/filter pipeline is modelled on top of "
                "the C09 and C11 models and tied by correspondence on real directories.")
 ASSUMPTIONS = list(c09.ASSUMPTIONS) + list(c11.ASSUMPTIONS) + [
     "delimited text input (header line + delimiter) is checked by the oracle only",
